@@ -55,6 +55,7 @@ CELLS = [
     ("float_neg", lambda: -2.5),
     ("float_zero", lambda: 0.0),
     ("float_int", lambda: 3.0),
+    ("float_one", lambda: 1.0),
     ("float_nan", lambda: float("nan")),
     ("float_inf", lambda: float("inf")),
     ("float_ninf", lambda: float("-inf")),
@@ -77,6 +78,7 @@ CELLS = [
     ("str_b64_badlen", lambda: "A"),
     ("str_b64_pad", lambda: "AQ=="),
     ("str_regex_bad", lambda: "(["),
+    ("str_regex_overflow", lambda: "a{99999999999999}"),
     ("str_uuid", lambda: "12345678-1234-5678-1234-567812345678"),
     ("str_ip4", lambda: "127.0.0.1"),
     ("str_ident", lambda: "A"),
@@ -88,12 +90,15 @@ CELLS = [
     ("bytearray", lambda: bytearray(b"ab")),
     ("decimal", lambda: Decimal("1.5")),
     ("decimal_neg", lambda: Decimal("-0.5")),
+    ("decimal_one", lambda: Decimal("1")),
     ("decimal_nan", lambda: Decimal("NaN")),
     ("decimal_snan", lambda: Decimal("sNaN")),
     ("decimal_inf", lambda: Decimal("Infinity")),
     ("decimal_huge", lambda: Decimal("1e400")),
     ("fraction", lambda: Fraction(1, 2)),
     ("complex", lambda: 1 + 2j),
+    ("complex_one", lambda: 1 + 0j),
+    ("fraction_zero", lambda: Fraction(0)),
     ("list_empty", lambda: []),
     ("list_ints", lambda: [1, 2]),
     ("list_strs", lambda: ["a", "b"]),
